@@ -385,6 +385,10 @@ def jobs(tier, seed):
     if seed:
         k = seed % len(js)
         js = js[k:] + js[:k]
+    # the few single executions that take minutes start first, so that they do not begin
+    # just before the time cap and run far beyond it
+    slow = [j for j in js if j['params']['site'].startswith(('fanout', 'bigdocs'))]
+    js = slow + [j for j in js if j not in slow]
     return js
 
 
